@@ -663,6 +663,12 @@ class TaskScenario(ScenarioData):
         lowerLimit = self.project.dateToIdx(self.project["start"])
         upperLimit = self.project.dateToIdx(self.project["end"])
 
+        # A dependency bound, pinned start or deadline outside the scheduling horizon cannot
+        # be served: the task stays unscheduled (the slot tables have no entry out there)
+        if self.currentSlotIdx is not None and (self.currentSlotIdx < lowerLimit or self.currentSlotIdx > upperLimit):
+            self.isRunAway = True
+            return False
+
         previous_effort = self.doneEffort
         while self.scheduleSlot():
             # Track first booked slot for ALAP (when effort actually increases)
